@@ -144,12 +144,17 @@ def check(run):
     rng = run.rng(0)
     d = tempfile.mkdtemp(prefix='verif_c16_')
     try:
-        nfiles = 3 if run.quick else 60
+        nfiles = 3 if run.quick else 40
         k = 0
+        plan = []
         for rep in range(nfiles):
-            for ftype in ('rvint', 'pack9', 'packedpid', 'pid'):
+            for j, ftype in enumerate(('rvint', 'pack9', 'packedpid', 'pid')):
+                # every file type meets the hazardous sizes (0 = empty / header-only pack9, 1) in every tier
+                plan.append((ftype, [0, 1, 257, 3000, 40][(rep + j) % 5] if rep >= 2 else [0, 1][rep]))
+        for ftype, N in plan:
+            for _once in (0,):
                 k += 1
-                N = [0, 1, 257, 3000, 40][(k + rep) % 5]
+                rep = k
                 hkind = ['snapshot', 'lightcone'][k % 2]
                 comp = [None, 'zlib', 'blsc'][(k // 2) % 3]
                 fn, data, hdr = make_file(rng, d, ftype, N, hkind, comp, k)
@@ -214,14 +219,26 @@ def check(run):
         write_asdf(two, dict(header=hdr, data=dict(rvint=rv, packedpid=pp)), None)
         none = os.path.join(d, 'none.asdf')
         write_asdf(none, dict(header=hdr, data=dict(other=rv)), None)
-        for fn, label in ((two, 'two-known-columns'), (none, 'no-known-column')):
-            run.ev()
-            try:
-                RA.read_asdf(fn, verbose=False)
-                run.violation('read-asdf-ambiguous-not-rejected', dict(file=label))
-            except ValueError:
-                run.count('documented_rejections_observed')
-            run.nt(('reject', label))
+        pair_files = [(two, 'rvint+packedpid'), (none, 'no-known-column')]
+        for a, b in (('rvint', 'pack9'), ('packedpid', 'pid'), ('pack9', 'pid')):
+            fnp = os.path.join(d, f'pair_{a}_{b}.asdf')
+            arrs = dict(rvint=rv, packedpid=pp, pid=pp, pack9=np.concatenate([c15.header_record(3, 10, [0, 1, 2]), c15.pack_fields(rng.integers(0, 0xFF0, (4, 6)))]))
+            write_asdf(fnp, dict(header=hdr, data={a: arrs[a], b: arrs[b]}), None)
+            pair_files.append((fnp, f'{a}+{b}'))
+        for fn, label in pair_files:
+            # the ambiguity must be reported whatever the (explicit or default) load list is
+            for load in (None, ('pos',), ('vel',), ('pos', 'vel'), ('pid',), ('pid', 'density'), ('aux',), ('pos', 'pid')):
+                run.ev()
+                try:
+                    with warnings.catch_warnings():
+                        warnings.simplefilter('ignore')
+                        t = RA.read_asdf(fn, load=load, verbose=False)
+                    run.violation('read-asdf-ambiguous-not-rejected', dict(file=label, load=load, got_columns=t.colnames))
+                except ValueError:
+                    run.count('documented_rejections_observed')
+                except Exception as e:
+                    run.violation('read-asdf-ambiguous-wrong-error', dict(file=label, load=load, error=f'{type(e).__name__}: {e}'[:200]))
+                run.nt(('reject', label, load))
         t = RA.read_asdf(two, colname='rvint', verbose=False)
         run.ev()
         check_table(run, t, 'rvint', rv, hdr, ['pos', 'vel'], np.float32, dict(file='two-known-columns', colname='rvint'))
